@@ -38,6 +38,18 @@ H("k02a_params_rt_nodict", "preflate_parameter_estimator", ["C02", "C08", "C04"]
   claim="the no-dictionary parameter constant round-trips through write/read",
   functions=["PreflateParameters::write", "PreflateParameters::read"], bounds="Store and HuffOnly x 3 huff strategies")
 
+# ---------------------------------------------------------------- deflate reader / writer
+STORED_FUNCS = ["DeflateReader::read_block (stored arm)", "BitReader::get/read_byte/flush_buffer_to_byte_boundary",
+                "DeflateReader::read_eof_padding", "DeflateWriter::encode_block (stored arm)", "BitWriter::write/pad/flush_whole_bytes",
+                "DeflateWriter::flush_with_padding"]
+H("k07a_stored_rewrite_7", "deflate_reader", ["C07", "C03", "C05", "C02"], unwind=9, timeout=400,
+  claim="stored block: parse -> re-serialise gives back exactly the consumed bytes; plaintext, final flag and consumed length equal the RFC 1951 reading",
+  functions=STORED_FUNCS, bounds="all 7-byte inputs whose first block is stored and is accepted (payload 0..=2, all padding bit patterns, both final-flag values)",
+  outside="payloads longer than N-5 bytes", assumptions=["input seam Src<N>: parse must finish within N bytes (assume(false) beyond)"])
+H("k07a_stored_rewrite_10", "deflate_reader", ["C07", "C03"], tier="thorough", unwind=12, timeout=1500, mem_gb=12,
+  claim="as k07a_stored_rewrite_7 with N = 10", functions=STORED_FUNCS, bounds="all 10-byte inputs, payload 0..=5",
+  assumptions=["input seam Src<N>"])
+
 # ---------------------------------------------------------------- tree predictor
 H("k05b_tc_len_total", "tree_predictor", ["C05", "C01"], unwind=20,
   claim="calc_tc_lengths_without_trailing_zeros never indexes out of range and returns min(n,4)..=19",
@@ -58,3 +70,50 @@ def version_gate(dst, verif):
     cur = grab(dst)
     ref = grab(os.path.join(verif, "reference", "preflate_ref"))
     return {"current": cur, "reference": ref, "announced_change": cur != ref and None not in cur.values() and None not in ref.values()}
+
+# ---------------------------------------------------------------------------
+# per-property manifest text
+# ---------------------------------------------------------------------------
+_T = "bounded symbolic execution of the real code (Kani 0.68 / CBMC 6.11 / CaDiCaL)"
+PROPS = {
+    "C01": dict(design_ref="§2 C01", technique=_T + ": scanner tiling with contract stubs, header parsers, chunk/varint/IDAT round trips",
+                level_text="Every lemma the container round trip decomposes into is decided by the SAT solver for all inputs inside the stated byte bounds; composition across lemmas is by argument (DESIGN §C01).",
+                level_note="Bounds per harness in evidence; files in which the real analysis accepts a >1024-byte stream are outside (no such stream fits the bounds). Trusted: Kani/CBMC, stubs, crc32fast shim."),
+    "C02": dict(design_ref="§2 C02", technique=_T + ": mirror-pair lemmas (parameter header, token predict/recreate over a model chain, hops inverse, tree header, block structure)",
+                level_text="Each encoder/decoder mirror pair is decided for all inputs inside its bound with the arithmetic coder replaced by a transparent recording codec.",
+                level_note="Model hash chain at the HashChain trait seam (real hash tables are out of reach); dynamic-block Huffman prediction and the estimator are outside."),
+    "C03": dict(design_ref="§2 C03", technique=_T + ": differential harness against an RFC 1951 reference decoder written in the harness",
+                level_text="Reader output equals an independent RFC-1951 reading for all stored/fixed blocks within N bytes, all table entries and all small canonical codes.",
+                level_note="Oracle is the in-harness reference, validated natively against zlib (sampled) by setup_cmd; dynamic blocks over full alphabets are outside."),
+    "C04": dict(design_ref="§2 C04", technique=_T + ": bounded equivalence of format-defining kernels, current tree vs frozen reference crate",
+                level_text="For each format-defining kernel the solver shows current(x) == reference(x) for all x in the bound; an announced version bump passes.",
+                level_note="Kernel list in evidence; code outside the list (table-level chain code, estimators) is not covered."),
+    "C05": dict(design_ref="§2 C05", technique=_T + ": Kani panic/overflow/bounds/unwinding checks on parser, tree predictor, matcher, container",
+                level_text="No panic, overflow, out-of-bounds or unbounded loop for any input inside the bounds, for the harnessed functions.",
+                level_note="Estimators and the real hash-table walk are outside; dev-profile semantics."),
+    "C06": dict(design_ref="§2 C06", technique=_T + ": real scanner with an offset-oracle stub for the analysis",
+                level_text="For every wrapper/header variant in the bound the scanner calls the analysis exactly at the stream start and emits the chunk there.",
+                level_note="Acceptance of S by the real analysis is stubbed (oracle); large optional fields outside."),
+    "C07": dict(design_ref="§2 C07", technique=_T + ": parse -> re-serialise identity on symbolic bit streams",
+                level_text="Reader followed by writer reproduces the consumed bits for all stored blocks, fixed-Huffman token sequences and dynamic headers inside the bounds.",
+                level_note="Fixed tables precomputed natively from the same source and checked equal under Kani in the thorough tier; dynamic block data over full alphabets outside."),
+    "C08": dict(design_ref="§2 C08", technique=_T + ": C02 mirror lemmas with the parameter vector symbolic over estimator_range",
+                level_text="The mirror lemmas hold for every parameter vector in estimator_range, so reconstruction cannot depend on which one the estimator picked.",
+                level_note="estimator_range predicate is hand-written from recommend() and the config tables and printed in evidence."),
+    "C10": dict(design_ref="§2 C10", technique=_T + ": exp-coding pair and op protocol over a tagged transparent channel",
+                level_text="Encode/decode of every single operation (all v < 2^31, widths 1..16, every context) and of all k-operation sequences with concrete kinds round-trips and uses identical context slots.",
+                level_note="The VP8 arithmetic coder is replaced by a tagged transparent channel; sequences longer than k outside."),
+    "C11": dict(design_ref="§2 C11", technique=_T + ": compress_zstd/decompress_zstd over a zstd framing model",
+                level_text="Capacity pass-through, error propagation and round trip of the two wrapper functions for all small inputs and capacities.",
+                level_note="zstd itself is modelled (FFI): the claim is conditional on zstd meeting the model's contract."),
+    "C12": dict(design_ref="§2 C12", technique=_T + ": C ABI wrappers with harness-owned guarded buffers over the zstd model",
+                level_text="Status, result_size and buffer bounds of both wrappers for all small inputs and capacities.",
+                level_note="catch_unwind is stubbed to call the closure (no unwinding semantics in Kani); 128 MiB bound and 'never unwinds' are not decided."),
+    "C13": dict(design_ref="§2 C13", technique=_T + ": recreated_zlib_chunks over solver-chosen read/write fragmentation and fault points",
+                level_text="For every fragmentation and fault schedule inside the bound: same output, or Err with a prefix written, never a panic.",
+                level_note="Literal-chunk containers only (deflate chunks need the real predictor); sizes bounded."),
+}
+NOT_APPLICABLE = {
+    "C09": "statistical aggregate over outputs of four real compressors relative to a second build: no bounded symbolic assertion expresses it and the compressors/estimators cannot be encoded (DESIGN §C09)",
+    "C14": "quantifies over thread schedules; Kani/CBMC do not model Rust threads here and a hand MIR->SMT interleaving encoding of this library is out of reach (DESIGN §C14)",
+}
